@@ -88,6 +88,33 @@ func (v *Verifier) evalCall(fr *Frame, st *State, x *ast.CallExpr) Val {
 		case "asType": // asType(x, T): the T held by interface value x
 			iv := v.evalSpec(fr, st, x.Args[0]).(OpaqueVal)
 			return v.dynPayload(iv.ID, v.resolveType(fr, x.Args[1]))
+		case "bit": // bit(x, k): bit k of the bit-vector x as bool (k an integer, out of range: false)
+			xv := v.asScalar(v.evalSpec(fr, st, x.Args[0]), x.Pos())
+			k := v.evalSpec(fr, st, x.Args[1])
+			if xv.T.Sort.Kind != SBV {
+				panic(unsupportedf(x.Pos(), "bit(): first argument must be a sized integer"))
+			}
+			w := xv.T.Sort.W
+			ks := v.asScalar(v.coerce(k, types.Typ[types.Int]), x.Pos())
+			var parts []*Term
+			for i := 0; i < w; i++ {
+				var eq *Term
+				if ks.T.Sort == IntSort {
+					eq = c.Eq(ks.T, c.Inti(int64(i)))
+				} else {
+					eq = c.Eq(ks.T, c.BVu(uint64(i), ks.T.Sort.W))
+				}
+				parts = append(parts, c.And(eq, c.Eq(c.Extract(i, i, xv.T), c.BVu(1, 1))))
+			}
+			return Scalar{c.Or(parts...), types.Typ[types.Bool]}
+		case "ksByte": // ksByte(stream, k): k-th keystream byte of a cipher.Stream (uninterpreted)
+			sv := v.evalSpec(fr, st, x.Args[0]).(OpaqueVal)
+			k := v.toIdx(v.coerce(v.evalSpec(fr, st, x.Args[1]), types.Typ[types.Int]), x.Pos())
+			return Scalar{c.App("ghost$ks", BVSort(8), sv.ID, k), types.Typ[types.Uint8]}
+		case "ksPos": // ksPos(stream): keystream bytes consumed so far
+			v.needIntIdx(x.Pos(), "ksPos")
+			sv := v.evalSpec(fr, st, x.Args[0]).(OpaqueVal)
+			return Scalar{v.nonNeg(c.Select(v.ghostHeap(st, gKsPos), sv.ID)), types.Typ[types.Int]}
 		case "bits": // bits(x, hi, lo): extract
 			s := v.asScalar(v.evalSpec(fr, st, x.Args[0]), x.Pos())
 			hi := v.constInt(fr, st, x.Args[1])
@@ -943,6 +970,10 @@ func (v *Verifier) resolveModTarget(cf *Frame, st *State, m ast.Expr, pos token.
 				keys = []string{gAtomic}
 			case "big":
 				keys = []string{gBigBits}
+			case "keystream":
+				keys = []string{gKsPos}
+			case "iolog":
+				keys = []string{gChanLen, gChanData, gChanMsgs}
 			}
 			if keys != nil {
 				val := v.eval(cf, st, ce.Args[0])
